@@ -272,12 +272,14 @@ def execute(case):
         res.skip("text not encodable")
         return res.dict()
     received = []
-    orig = cls.__dict__[meth]
-    func = orig.__func__
-    def spy(c, *a, **k):
-        received.append((a, dict(k)))
-        return func(c, *a, **k)
-    setattr(cls, meth, classmethod(spy))
+    orig = cls.__dict__.get(meth)
+    spying = isinstance(orig, classmethod)
+    if spying:
+        func = orig.__func__
+        def spy(c, *a, **k):
+            received.append((a, dict(k)))
+            return func(c, *a, **k)
+        setattr(cls, meth, classmethod(spy))
     try:
         try:
             a_out = getattr(di, alias)(path, **real_kw)
@@ -285,7 +287,8 @@ def execute(case):
         except Exception as e:
             a_out, a_err = None, e
     finally:
-        setattr(cls, meth, orig)
+        if spying:
+            setattr(cls, meth, orig)
     try:
         c_out = getattr(cls, meth)(path, **real_kw)
         c_err = None
